@@ -53,7 +53,7 @@ def row_classes(table):
 def run(ctx):
     vf.build_tool(ing.TOOL)
     full = not ctx.quick
-    per = 2 if ctx.quick else 4
+    per = 2 if ctx.quick else 5
     table = ing.mc_and_gen(ctx, [("P", ["P"], (0,), False), ("H", ["H"], (0,), full), ("F", ["F"], (0,), False), ("X", ["X"], (0,), False)])
     tp = os.path.join(ctx.scratch, "table-c08.ndjson")
     ing.write_table(tp, table)
